@@ -76,7 +76,7 @@ theorem outer_zero (D : Nat) (chain : List Nat) (st : St) : outer 0 D chain st =
 theorem outer_nil (f D : Nat) (st : St) : outer (f+1) D [] st = st := rfl
 theorem outer_cons (f D cur : Nat) (rest : List Nat) (st : St) :
     outer (f+1) D (cur :: rest) st =
-      if (st.get cur).paused ≠ 0 then st else inner f D cur rest st := rfl
+      if (st.get cur).paused ≠ 0 then outer f D rest st else inner f D cur rest st := rfl
 
 /-- what `inner` does after the user callback returned `r` in state `st` -/
 def afterCb (f D cur : Nat) (rest : List Nat) (st : St) (r : Res) : St :=
@@ -84,7 +84,7 @@ def afterCb (f D cur : Nat) (rest : List Nat) (st : St) (r : Res) : St :=
   match r with
   | .dfd j =>
     let t := st.get j
-    if t.result = .none ∨ t.result.isDfd ∨ t.paused ≠ 0 then
+    if t.result = .none ∨ t.result.isDfd ∨ t.paused ≠ 0 ∨ t.callbacks ≠ [] then
       let st := st.set cur { st.get cur with paused := (st.get cur).paused + 1 }
       let st := st.set j { st.get j with callbacks := (st.get j).callbacks ++ [.cont cur] }
       outer f D rest st
